@@ -577,9 +577,9 @@ class DynDiGraph(nx.DiGraph):
             else:
                 if t[0] <= max_end < t[1]:
                     app[-1][1] = t[1]
-                    if max_end + 1 in self.time_to_edge:
-                        if self.edge_removal:
-                            del self.time_to_edge[max_end + 1][(u, v, "-")]
+                    if (u, v, "-") in self.time_to_edge.get(max_end + 1, {}):
+                        del self.time_to_edge[max_end + 1][(u, v, "-")]
+                    if t[0] != app[-1][0]:
                         del self.time_to_edge[t[0]][(u, v, "+")]
 
                 elif max_end == t[0] - 1:
